@@ -39,6 +39,11 @@ PY
   else
     VERIF_ROOT="$d/root" "$d/vcheck" run "$id" "$tier" >"$d/out.log" 2>&1; rc=$?
   fi
+  if [ "$id" = C07 ] && [ $rc -eq 0 ]; then
+    # as in run.sh: the C07 spaces once more on a build with inlining disabled
+    go build -tags verif -gcflags=all=-l -overlay "$d/overlay.json" -o "$d/vcheck-noinline" ./cmd/vcheck 2>>"$d/build.log" &&
+      { VERIF_ROOT="$d/root" "$d/vcheck-noinline" run C07 quick >"$d/out.log" 2>&1; rc=$?; }
+  fi
   if [ $rc -eq 1 ] && grep -q "^VIOLATION property=$id " "$d/out.log"; then
     echo "$n: DETECTED ($(grep -c '^VIOLATION' "$d/out.log") violation classes; first: $(grep -m1 '  class=' "$d/out.log" | cut -c1-120))"
   else
